@@ -6,6 +6,7 @@ import StunVerif.Spec.Attr
 import StunVerif.Lemmas.Attr
 import StunVerif.Gen.Attr
 import StunVerif.Gen.Limits
+import StunVerif.Gen.Fields
 namespace StunVerif.C08
 open StunVerif
 
@@ -93,6 +94,14 @@ def inRange (r : Option Nat × Option Nat) (n : Nat) : Prop :=
     constructors enforce -/
 theorem src_decode_ranges :
     Gen.decodeRanges = Kind.all.map lenRange ∧ Gen.textNewLimits = [513, 763, 763, 763] := by
+  decide
+
+/-- field-level constants of the decoders as read from /repo on this run: ERROR-CODE takes the class
+    from `b2 & 7`, accepts classes `3..7` (exclusive) and numbers `≤ 99`, and computes
+    `class * 100 + number`; address families are written and read as 1 (IPv4) and 2 (IPv6) and nothing
+    else is accepted.  These are the numbers of the RFC table `Spec.accept` / `Spec.fields`. -/
+theorem src_field_constants :
+    Gen.errorCodeDecode = [7, 3, 7, 99, 100] ∧ Gen.addressFamilyBytes = [1, 2, 1, 2] := by
   decide
 
 /-- the table's ranges are implied by the RFC accept sets (so the range check refuses nothing the
